@@ -157,8 +157,14 @@ func checkC05(r *Run) {
 	}
 	leak := mapLeak(outstanding, 0)
 	r.Check(leak == "", "confinement", "handle: outstanding map is confined to the owner goroutine", outstanding.Pos(), "the tag table is "+leak+": concurrent map access (fatal error) and lost replies")
-	isOut := func(v ssa.Value) bool {
-		if v == ssa.Value(outstanding) {
+	// helpers of the owner loop that receive the table as an argument (the request branch extracted into a method):
+	// inside them the corresponding parameter is the table
+	outParams := map[ssa.Value]bool{}
+	scope := []*ssa.Function{owner}
+	var isOut func(v ssa.Value) bool
+	defer func() { _ = scope }()
+	isOut = func(v ssa.Value) bool {
+		if v == ssa.Value(outstanding) || outParams[v] {
 			return true
 		}
 		if u, ok := v.(*ssa.UnOp); ok && u.Op == token.MUL {
@@ -173,11 +179,38 @@ func checkC05(r *Run) {
 		return false
 	}
 
+	for _, g := range p.withHelpers(owner, 1)[1:] {
+		if g == at {
+			continue
+		}
+		takes := false
+		for _, c := range findCalls(owner, fnName(g)) {
+			for i, a := range c.Call.Args {
+				if isOut(a) && i < len(g.Params) {
+					outParams[g.Params[i]] = true
+					takes = true
+				}
+			}
+		}
+		if takes {
+			scope = append(scope, g)
+			r.SawFn(fnName(g))
+		}
+	}
+	eachScope := func(f func(fn *ssa.Function, in ssa.Instruction)) {
+		for _, fn := range scope {
+			eachInstr(fn, func(in ssa.Instruction) { f(fn, in) })
+		}
+	}
+
 	c05AllocateTag(r, at)
 
 	// (3) register before write
-	ats := findCalls(owner, "p9p.allocateTag")
-	writes := findCalls(owner, "invoke p9p.Channel.WriteFcall")
+	var ats, writes []*ssa.Call
+	for _, fn := range scope {
+		ats = append(ats, findCalls(fn, "p9p.allocateTag")...)
+		writes = append(writes, findCalls(fn, "invoke p9p.Channel.WriteFcall")...)
+	}
 	r.Floor("register-before-write", len(ats), 1, "allocateTag call in the owner loop")
 	r.Floor("register-before-write", len(writes), 1, "WriteFcall in the owner loop")
 	var mainSel *ssa.Select
@@ -215,7 +248,7 @@ func checkC05(r *Run) {
 		r.Check(okm && req != nil && reqv == req, "register-before-write", "handle: the frame carries the request's own message", w.Pos(), "the message written is not that of the request registered under the tag")
 		// registration dominates the write: outstanding[tag] = req
 		reg := false
-		eachInstr(owner, func(in ssa.Instruction) {
+		eachInstr(w.Parent(), func(in ssa.Instruction) {
 			if mu, ok := in.(*ssa.MapUpdate); ok && isOut(mu.Map) && mu.Key == tag && mu.Value == req && instrDominates(mu, w) {
 				reg = true
 			}
@@ -232,7 +265,7 @@ func checkC05(r *Run) {
 		e := errResult(a)
 		okRep := false
 		if e != nil {
-			eachInstr(owner, func(in ssa.Instruction) {
+			eachInstr(a.Parent(), func(in ssa.Instruction) {
 				if sd, ok := in.(*ssa.Send); ok && sd.X == e && knownNonNilAt(e, sd) && chanProv(sd.Chan, 0) == "field:fcallRequest.err" {
 					okRep = true
 				}
@@ -289,7 +322,7 @@ func checkC05(r *Run) {
 	r.Floor("routing", nRoute, 1, "reply delivery site")
 	// deletes happen only for the reply's tag or the failed request's own tag
 	nDel := 0
-	eachInstr(owner, func(in ssa.Instruction) {
+	eachScope(func(_ *ssa.Function, in ssa.Instruction) {
 		c, ok := in.(*ssa.Call)
 		if !ok {
 			return
@@ -361,9 +394,9 @@ func checkC05(r *Run) {
 			}
 			r.CallSites++
 			if n == "invoke p9p.Channel.WriteFcall" {
-				r.Check(fn == owner, "single-writer", fnName(fn)+": transport writes frames only from the owner loop", in.Pos(), "a second goroutine writes to the channel: frames interleave on the wire")
+				r.Check(fn == owner || runsOnlyOn(p, fn, owner, 0), "single-writer", fnName(fn)+": transport writes frames only from the owner loop", in.Pos(), "a second goroutine writes to the channel: frames interleave on the wire")
 			} else {
-				r.Check(fn == reader, "single-writer", fnName(fn)+": transport reads frames only from the reader goroutine", in.Pos(), "a second goroutine reads from the channel: frames are torn")
+				r.Check(fn == reader || runsOnlyOn(p, fn, reader, 0), "single-writer", fnName(fn)+": transport reads frames only from the reader goroutine", in.Pos(), "a second goroutine reads from the channel: frames are torn")
 			}
 		})
 	}
@@ -476,36 +509,122 @@ func c05AllocateTag(r *Run, at *ssa.Function) {
 
 // (7) Rerror → error
 func c05Rerror(r *Run, send *ssa.Function) {
+	// the function that unpacks the reply: send itself, or a helper whose results send returns unchanged
+	unpack := send
 	var ta *ssa.TypeAssert
-	eachInstr(send, func(in ssa.Instruction) {
-		if x, ok := in.(*ssa.TypeAssert); ok && isP9P(x.AssertedType, "MessageRerror") {
-			ta = x
-		}
-	})
+	for _, f := range r.P.withHelpers(send, 2) {
+		eachInstr(f, func(in ssa.Instruction) {
+			if x, ok := in.(*ssa.TypeAssert); ok && isP9P(x.AssertedType, "MessageRerror") && ta == nil {
+				ta = x
+				unpack = f
+			}
+		})
+	}
 	if ta == nil {
 		r.Bad("rerror", "send: an Rerror reply becomes the call's error", send.Pos(), "no conversion of Rerror replies into errors: error replies are returned as successful messages")
 		return
 	}
+	fromSelect := func(v ssa.Value) bool {
+		if ex, ok := v.(*ssa.Extract); ok {
+			_, isSel := ex.Tuple.(*ssa.Select)
+			return isSel
+		}
+		return false
+	}
+	isReply := fromSelect
+	if unpack != send {
+		// send must hand the received frame to the helper and return the helper's results as they are
+		var replyParam ssa.Value
+		okFwd := false
+		for _, c := range findCalls(send, calleeNameOfFn(unpack)) {
+			for i, a := range c.Call.Args {
+				if fromSelect(a) && i < len(unpack.Params) {
+					replyParam = unpack.Params[i]
+				}
+			}
+			for _, ret := range returnsOf(send) {
+				if len(ret.Results) == 2 && resultN(c, 0) != nil && ret.Results[0] == resultN(c, 0) && ret.Results[1] == resultN(c, 1) {
+					okFwd = true
+				}
+			}
+		}
+		r.Check(replyParam != nil && okFwd, "rerror", "send: the received frame is unpacked by "+fnName(unpack)+" and its results are returned unchanged", send.Pos(),
+			"the unpacking helper is not applied to the reply received on the request's channel, or its results are not what send returns")
+		isReply = func(v ssa.Value) bool { return v == replyParam }
+	}
 	r.Check(ta.CommaOk, "rerror", "send: assertion to MessageRerror is checked", ta.Pos(), "unchecked assertion on peer data")
 	okRet := false
-	for _, ret := range returnsOf(send) {
+	for _, ret := range returnsOf(unpack) {
 		if len(ret.Results) == 2 && derivesFrom(ret.Results[1], ta, 3) && isNilConst(ret.Results[0]) {
 			okRet = true
 		}
 	}
 	r.Check(okRet, "rerror", "send: the Rerror message is returned as the error (with a nil message)", ta.Pos(), "the error reply is not turned into the call's error")
-	// the assertion is guarded by Type == Rerror and the other path returns the message of the same reply with nil error
+	// the asserted message is the reply's own
+	if o, ok := fieldOfLocalCopy(ta.X, "Message"); ok {
+		r.Check(isReply(o), "rerror", "send: the Rerror examined is the received reply's message", ta.Pos(), "the assertion inspects a message other than the reply's")
+	}
+	// the other path returns the message of the same reply with nil error
 	okOther := false
-	for _, ret := range returnsOf(send) {
+	for _, ret := range returnsOf(unpack) {
 		if len(ret.Results) == 2 && isNilConst(ret.Results[1]) {
-			if o, ok := fieldOfLocalCopy(stripConv(ret.Results[0]), "Message"); ok {
-				if ex, ok := o.(*ssa.Extract); ok {
-					if _, isSel := ex.Tuple.(*ssa.Select); isSel {
-						okOther = true
+			if o, ok := fieldOfLocalCopy(stripConv(ret.Results[0]), "Message"); ok && isReply(o) {
+				// ... and only on the edge where the reply's type is not Rerror
+				for _, cd := range condsAtInstr(ret) {
+					nc := normCond(cd)
+					b, ok := nc.V.(*ssa.BinOp)
+					if !ok || (b.Op != token.EQL && b.Op != token.NEQ) {
+						continue
+					}
+					for _, pair := range [][2]ssa.Value{{b.X, b.Y}, {b.Y, b.X}} {
+						if c, ok := constInt(pair[1]); ok && c == 107 {
+							if to, ok := fieldOfLocalCopy(stripConv(pair[0]), "Type"); ok && isReply(to) && (b.Op == token.NEQ) == nc.Truth {
+								okOther = true
+							}
+						}
 					}
 				}
 			}
 		}
 	}
-	r.Check(okOther, "rerror", "send: a non-error reply returns the received frame's message", send.Pos(), "the message returned is not that of the reply received on the request's channel")
+	r.Check(okOther, "rerror", "send: a non-error reply (Type != Rerror) returns the received frame's message", send.Pos(), "the message returned is not that of the reply received on the request's channel, or error replies are returned as successful messages")
+}
+
+// calleeNameOfFn: the name calleeName() reports for static calls of fn.
+func calleeNameOfFn(fn *ssa.Function) string { return fnName(fn) }
+
+// runsOnlyOn: fn executes only as part of the goroutine whose body is `root`: every reference to fn in the module
+// is a plain static call (not go/defer, not a function value) from root or from a function that itself runs only on root.
+func runsOnlyOn(p *Prog, fn, root *ssa.Function, depth int) bool {
+	if fn == root {
+		return true
+	}
+	if depth > 2 || fn.Parent() != nil {
+		return false
+	}
+	nRef := 0
+	ok := true
+	for _, f := range p.FuncsOfPkg("p9p") {
+		eachInstr(f, func(in ssa.Instruction) {
+			refs := false
+			for _, op := range in.Operands(nil) {
+				if op != nil && *op == ssa.Value(fn) {
+					refs = true
+				}
+			}
+			if !refs {
+				return
+			}
+			nRef++
+			c, isCall := in.(*ssa.Call)
+			if !isCall || c.Call.Value != ssa.Value(fn) {
+				ok = false
+				return
+			}
+			if !runsOnlyOn(p, f, root, depth+1) {
+				ok = false
+			}
+		})
+	}
+	return ok && nRef > 0
 }
